@@ -12,6 +12,7 @@ import (
 	"verifharness/hx"
 
 	"github.com/iotaledger/hive.go/kvstore"
+	"github.com/iotaledger/hive.go/kvstore/debug"
 	"github.com/iotaledger/hive.go/kvstore/utils"
 	"github.com/iotaledger/hive.go/serializer/v2/byteutils"
 )
@@ -257,6 +258,24 @@ func runPure(r *hx.Run) {
 		if !ok || !bytes.Equal(arg, src) || !spareIntact(arg) {
 			r.Fail("pure-helpers", fmt.Sprintf("CopyBytes(%s, %s): wrong result or result shares memory with the source", hx.Hex(src), tok),
 				map[string]string{"fn": "CopyBytes", "what": "value-or-aliasing"})
+		}
+	}
+	// the constants of debug.go: command bits in declaration order with their names, AllCommands, ShutdownCommand
+	{
+		cmds := []debug.Command{debug.IterateCommand, debug.IterateKeysCommand, debug.ClearCommand, debug.GetCommand, debug.SetCommand,
+			debug.HasCommand, debug.DeleteCommand, debug.DeletePrefixCommand}
+		wantNames := []string{"Iterate", "IterateKeys", "Clear", "Get", "Set", "Has", "Delete", "DeletePrefix"}
+		var toks []string
+		okConst := debug.ShutdownCommand == 0 && debug.CommandNames[debug.ShutdownCommand] == "Shutdown" && len(debug.CommandNames) == 9
+		for i, c := range cmds {
+			toks = append(toks, fmt.Sprintf("%s=%d", debug.CommandNames[c], int(c)))
+			okConst = okConst && int(c) == 1<<i && debug.CommandNames[c] == wantNames[i] && debug.AllCommands.HasBits(c)
+		}
+		toks = append(toks, fmt.Sprintf("AllCommands=%d", int(debug.AllCommands)))
+		r.Line("fn dbg", strings.Join(toks, " "))
+		r.Count("fn:dbg")
+		if !okConst || int(debug.AllCommands) != 255 {
+			r.Fail("pure-helpers", "debug.go constants: "+strings.Join(toks, " "), map[string]string{"fn": "debug.Command", "what": "constants"})
 		}
 	}
 	// GetIterDirection
